@@ -145,42 +145,69 @@ const UNITS: &[&str] = &["pt", "pc", "in", "bp", "cm", "mm", "dd", "cc", "sp", "
 
 /// A number token. `wild` allows the literals that are known to crash the lexer today
 /// (integer overflow, dimensions beyond TeX's range); they are kept rare so that most texts
-/// exercise the rest of the parser.
+/// exercise the rest of the parser. Without `wild` the value stays below 16384pt whatever the
+/// unit is.
 pub fn number(rng: &mut Rng, wild: bool) -> String {
     let mut s = String::new();
     if rng.chance(1, 4) {
         s.push('-');
     }
-    let int: String = match rng.below(if wild { 12 } else { 9 }) {
-        0 => "0".into(),
-        1 => rng.below(10).to_string(),
-        2 => rng.below(200).to_string(),
-        3 => rng.below(16384).to_string(),
-        4 => "16383".into(),
-        5 => format!("{:03}", rng.below(100)),
-        6 | 7 | 8 => rng.below(1000).to_string(),
-        9 => "2147483647".into(),
-        10 => rng.next_u64().to_string(),
-        _ => (16384 + rng.below(100000)).to_string(),
+    let unit: Option<&str> = match rng.below(12) {
+        0 | 1 => None,
+        _ => Some(ps(rng, UNITS)),
     };
-    s.push_str(&int);
-    match rng.below(6) {
-        0 => return s, // an integer
-        1 => {}
-        _ => {
-            s.push('.');
-            let maxd = if rng.chance(1, 10) { 25 } else { 6 };
-            for _ in 0..rng.range_usize(0, maxd) {
-                s.push((b'0' + rng.below(10) as u8) as char);
-            }
-            if rng.chance(1, 30) {
-                s.push_str(".5");
-            }
+    // largest integer part that is still a legal dimension in this unit
+    let cap: u64 = match unit {
+        Some("in") => 226,
+        Some("pc") => 1365,
+        Some("cm") => 575,
+        Some("mm") => 5758,
+        Some("cc") => 1275,
+        Some("dd") => 15000,
+        Some("bp") => 16000,
+        Some(_) => 16383,
+        None => i32::MAX as u64,
+    };
+    let int: u64 = if wild {
+        match rng.below(4) {
+            0 => i32::MAX as u64 + rng.below(3),
+            1 => rng.next_u64(),
+            2 => 16384 + rng.below(100000),
+            _ => cap + rng.below(3),
+        }
+    } else {
+        match rng.below(9) {
+            0 => 0,
+            1 => rng.below(10),
+            2 => rng.below(200),
+            3 => rng.below(cap + 1),
+            4 => cap,
+            _ => rng.below(1000),
+        }
+        .min(cap)
+    };
+    if rng.chance(1, 12) {
+        s.push_str(&format!("{:03}", int));
+    } else {
+        s.push_str(&int.to_string());
+    }
+    let Some(unit) = unit else {
+        if rng.chance(1, 6) {
+            s.push_str(".5"); // a number without units
+        }
+        return s;
+    };
+    if !rng.chance(1, 5) {
+        s.push('.');
+        let maxd = if rng.chance(1, 10) { 25 } else { 6 };
+        for _ in 0..rng.range_usize(0, maxd) {
+            s.push((b'0' + rng.below(10) as u8) as char);
+        }
+        if rng.chance(1, 30) {
+            s.push_str(".5");
         }
     }
-    if !rng.chance(1, 12) {
-        s.push_str(ps(rng, UNITS));
-    }
+    s.push_str(unit);
     s
 }
 
@@ -261,7 +288,7 @@ pub fn call(rng: &mut Rng, depth: u32, wild: bool) -> String {
 const SOUP: &[&str] = &[
     "(", ")", "[", "]", ",", "=", "\"", "\\", "#", "\n", " ", ".", "-", "0", "9", "pt", "fil", "chars", "glue", "\\u", "\\u{", "}",
     "\"\"", "\"a\"", "é", "中", "\u{1f600}", "\u{301}", "/", "*", ";", ":", "_", "a_b", "1.5pt", "-0pt", "3fill", "\u{0}", "\t",
-    "\r", "\u{feff}", "\u{2028}", "'", "{", "<", "10000000000", "1e5",
+    "\r", "\u{feff}", "\u{2028}", "'", "{", "<", "1e5",
 ];
 
 /// Token soup: no structure at all.
@@ -274,7 +301,10 @@ pub fn soup(rng: &mut Rng) -> String {
     };
     for _ in 0..n {
         match rng.below(12) {
-            0 => s.push_str(&number(rng, true)),
+            0 => {
+                let wild = rng.chance(1, 12);
+                s.push_str(&number(rng, wild))
+            }
             1 => s.push_str(&string_literal(rng)),
             2 => s.push_str(ps(rng, FUNCS)),
             3 => s.push_str(ps(rng, KEYS)),
@@ -466,4 +496,36 @@ pub fn has_unicode_escape_without_brace(text: &str) -> bool {
 
 fn ps<'a>(rng: &mut Rng, xs: &[&'a str]) -> &'a str {
     xs[rng.usize_below(xs.len())]
+}
+
+/// The two shapes of `\u` escape after which the lexer's byte offset, or its idea of where the
+/// string literal ends, differs from the bracket pre-scan: `\u` not followed by `{` (the next
+/// character is swallowed without being counted), and `\u{` with a `"` or `\` before the
+/// closing brace (swallowed by the escape, seen as string end / escape by the pre-scan).
+pub fn has_unicode_escape_trouble(text: &str) -> bool {
+    if has_unicode_escape_without_brace(text) {
+        return true;
+    }
+    let mut rest = text;
+    while let Some(p) = rest.find("\\u{") {
+        let tail = &rest[p + 3..];
+        for c in tail.chars() {
+            match c {
+                '}' => break,
+                '"' | '\\' => return true,
+                _ => {}
+            }
+        }
+        rest = tail;
+    }
+    false
+}
+
+/// A '.' followed somewhere by a character whose code point modulo 256 is below '0'
+/// (`c as u8 - b'0'` underflows for it).
+pub fn has_fraction_char_below_zero(text: &str) -> bool {
+    match text.find('.') {
+        None => false,
+        Some(p) => text[p + 1..].chars().any(|c| (c as u32 & 0xff) < 0x30),
+    }
 }
